@@ -117,11 +117,18 @@ fn build_history(kind: Kind, contents: &BTreeMap<u32, i64>, style: usize, rng: &
 }
 
 fn realize<Q: QueueApi>(h: &History) -> Result<State<Q>, Viol> {
-    let mut st = State::<Q>::construct(&h.ctor)?;
-    for op in &h.ops {
-        st.exec(op)?;
+    let r = catch_unwind(AssertUnwindSafe(|| -> Result<State<Q>, Viol> {
+        let mut st = State::<Q>::construct(&h.ctor)?;
+        for op in &h.ops {
+            st.exec(op)?;
+        }
+        Ok(st)
+    }));
+    match r {
+        Ok(x) => x,
+        // a panic while building a queue with ordinary operations is not a matter of equality
+        Err(_) => Err(crate::hist::panic_viol(Q::KIND, "build", &[])),
     }
-    Ok(st)
 }
 
 fn eq_viol(kind: Kind, what: &str, detail: String) -> Viol {
@@ -252,8 +259,22 @@ fn eq_case<Q: QueueApi>(seed: u64, idx: u64, cov: &mut EqCov) -> Result<serde_js
         cov.twin_ops += 1;
         let wit2 = serde_json::json!({"mode":"eq","kind":kind,"seed":seed,"index":idx,"contents":contents,"styles":[s1,s2,s3],"twin_ops":twin_ops});
         let w2 = |v: Viol| (v, wit2.clone());
-        let ra = src.exec(&op).map_err(w2)?;
-        snap = src.post_check(op.name(), op.extra_props(), &universe, false).map_err(w2)?;
+        // the source goes first: what fails (or panics) there is not a matter of the clone
+        let on_src = catch_unwind(AssertUnwindSafe(|| -> Result<(Ret, crate::snap::Snap), Viol> {
+            let ra = src.exec(&op)?;
+            let s = src.post_check(op.name(), op.extra_props(), &universe, false)?;
+            Ok((ra, s))
+        }));
+        let (ra, s_new) = match on_src {
+            Ok(x) => x.map_err(w2)?,
+            Err(_) => {
+                let v = crate::hist::panic_viol(kind, op.name(), &[]);
+                std::mem::forget(src);
+                std::mem::forget(cl);
+                return Err(w2(v));
+            }
+        };
+        snap = s_new;
         let rb = cl.exec(&op).map_err(|mut v| {
             v.props.push("C14");
             w2(v)
